@@ -187,7 +187,19 @@ func sortedKeys(m map[string]string) []string {
 func testOpts(t *TestSpec) []z.TestOption {
 	var o []z.TestOption
 	if t.OptMsg != nil {
-		o = append(o, z.Message(*t.OptMsg))
+		if t.OptMsgFunc {
+			m := *t.OptMsg
+			o = append(o, z.MessageFunc(func(i *z.ZogIssue, _ z.Ctx) { i.SetMessage(m) }))
+		} else {
+			o = append(o, z.Message(*t.OptMsg))
+		}
+	}
+	if t.OptParams != nil {
+		ps := map[string]any{}
+		for _, kv := range t.OptParams {
+			ps[kv[0]] = kv[1]
+		}
+		o = append(o, z.Params(ps))
 	}
 	if t.OptCode != nil {
 		o = append(o, z.IssueCode(*t.OptCode))
